@@ -181,6 +181,54 @@ def drivers(kind, flux, iname, cfl, bc, idx, res=None, par=None):
     return out
 
 
+STRONG_2D = [(1.0, 0.0, 0.0, 1.0), (1e3, 0.0, 0.0, 1e3), (1e-2, 1.5, -0.5, 1e-2), (1.0, -2.0, 2.0, 0.1)]       # rho, Mach_x, Mach_y, p
+
+
+def drivers2d(iname, bcname, grid, idx, res=None):
+    """2D Cartesian first-order HLLE with the library's own CFL step (1/2) on grids with elongated cells and domains: six iterations stay positive"""
+    nx, ny, lx, ly = grid
+    model = space.euler.euler2d()
+    msh = space.mesh2.mesh2d(nx, ny, lx, ly)
+    bcs = {t: {"type": bcname} for t in ("left", "right", "bottom", "top")}
+    disc = space.modeldisc.fvm2d(model, msh, space.xnum.extrapol2d1(), bcs, numflux="hlle")
+    P = np.array([STRONG_2D[i] for i in idx]).T
+    c = np.sqrt(1.4 * P[3] / P[0])
+    rho, u, v, p = P[0], P[1] * c, P[2] * c, P[3]
+    q = [rho.copy(), np.array([rho * u, rho * v]), p / 0.4 + 0.5 * rho * (u * u + v * v)]
+    f = space.field.fdata(model, msh, q)
+    out = []
+    try:
+        with np.errstate(all="ignore"), core.time_limit(20.0):
+            got = [space.integrators()[iname](msh, disc).solve(f, 0.5, stop={"maxit": k})[-1] for k in (1, 2, 6)]
+    except core.CallTimeout:
+        return [("C10/driver-2d/%s/%s/non-termination" % (iname, bcname), "grid %r data %r: solve did not return" % (grid, idx))]
+    if res is not None:
+        res.transitions += 3
+        res.evals += 3
+    for k, g in zip((1, 2, 6), got):
+        r_ = np.asarray(g.data[0], float)
+        m_ = np.asarray(g.data[1], float)
+        pr = 0.4 * (np.asarray(g.data[2], float) - 0.5 * (m_[0] ** 2 + m_[1] ** 2) / r_)
+        if not (np.all(np.isfinite(r_)) and np.all(np.isfinite(pr)) and np.all(r_ > 0) and np.all(pr > 0)):
+            out.append(("C10/driver-2d/%s/%s" % (iname, bcname), "euler2d hlle first order %s boundaries %s grid %r CFL 0.5 data letters %r: after %d iterations min density %r, min pressure %r" % (
+                iname, bcname, grid, idx, k, float(np.nanmin(r_)), float(np.nanmin(pr)))))
+            break
+    return out
+
+
+def shard_drivers2d(arg):
+    iname, bcname, grid = arg
+    res = core.Res()
+    for idx in space.pattern_assignments(grid[0] * grid[1], 4):
+        if len(set(idx)) == 1:
+            continue
+        res.nontrivial += 1
+        res.traces += 1
+        for s, w in drivers2d(iname, bcname, grid, idx, res):
+            res.violation(s, w, {"kind": "drv2d", "integrator": iname, "bc": bcname, "grid": list(grid), "idx": list(idx)})
+    return res
+
+
 def shard_drivers(arg):
     kind, flux, iname, cfl, bc, n = arg[:6]
     par = arg[6] if len(arg) > 6 else None
@@ -247,9 +295,12 @@ def run(ctx):
     cfg3 = [(kind, flux, iname, 0.5, bc, 2) for kind, fluxes in (("euler1d", ("hlle", "hllc")), ("shallowwater", ("rusanov", "hll"))) for flux in fluxes
             for iname in SSP for bc in ("per", "sym")]
     ctx.pmap("drivers-solve-and-solve_legacy", shard_drivers, cfg3)
+    ctx.pmap("drivers-2d", shard_drivers2d, [(iname, bc, g) for iname in SSP for bc in ("per", "sym") for g in ((2, 6, 6.0, 1.0), (6, 2, 1.0, 6.0), (3, 3, 1.0, 1.0), (4, 2, 1.0, 1.0))])
 
 
 def replay(case):
+    if case.get("kind") == "drv2d":
+        return drivers2d(case["integrator"], case["bc"], tuple(case["grid"]), tuple(case["idx"]))
     if case.get("kind") == "drv":
         return drivers(case["model"], case["flux"], case["integrator"], case["cfl"], case["bc"], tuple(case["idx"]), None, case.get("par"))
     if case["kind"] == "window":
